@@ -51,7 +51,11 @@ func (f *Frame) applyCall(c *ssa.CallCommon, fnv Val, args []Val, st *State, pos
 				return f.applyFunction(m, nil, append([]Val{self}, args...), st, pos)
 			}
 		}
-		return f.havocCall(key, sig, append([]Val{recv}, args...), st, true)
+		inRepo := false
+		if n, ok := c.Value.Type().(*types.Named); ok && n.Obj().Pkg() != nil && strings.HasPrefix(n.Obj().Pkg().Path(), repoModule) {
+			inRepo = true
+		}
+		return f.havocCall(key, sig, append([]Val{recv}, args...), st, inRepo)
 	}
 	if fn := c.StaticCallee(); fn != nil {
 		var bind []Val
@@ -326,6 +330,34 @@ func (f *Frame) applyContract(ct *Contract, fn *ssa.Function, sig *types.Signatu
 	}
 	if !ct.Pure {
 		f.bumpNext(st)
+	}
+	// a pure contract with a defining postcondition `r == e` yields e itself (usable under quantifiers)
+	if ct.Pure && sig.Results().Len() == 1 {
+		rname := "result"
+		if len(ct.Results) == 1 {
+			rname = ct.Results[0].Name
+		}
+		for _, en := range ct.Ensures {
+			if b, ok := en.E.(EBinary); ok && (b.Op == "==" || b.Op == "<==>") {
+				if id, ok := b.L.(EIdent); ok && id.Name == rname {
+					v := f.eval(b.R, &evalCtx{env: env, cur: st, old: &old})
+					v.Go = sig.Results().At(0).Type()
+					if v.T.Sort == un.u.SortOf(v.Go) {
+						env[rname] = v
+						env["result"] = v
+						if un.inQuant == 0 && !f.pure {
+							un.assume(st, un.typeFacts(v.Go, v.T, st, 0))
+						}
+						for _, en2 := range ct.Ensures {
+							if en2 != en {
+								un.assume(st, f.evalClause(en2, env, st, &old))
+							}
+						}
+						return v
+					}
+				}
+			}
+		}
 	}
 	res, outs := f.freshResults(sig, st, "res_"+shortFn(name))
 	for i, o := range outs {
